@@ -164,6 +164,32 @@ def run(ctx):
     for ver_, fs_ in sorted((feats_ or {}).items()):
         ctx.inst("C15.R7", "serde_json@features", "float_roundtrip" in fs_, "resolved features of serde_json %s: %s" % (ver_, sorted(fs_)), "blots/Cargo.toml")
 
+    c06_.to_json_number_rule(ctx, "C15.R7", core)
+    # ---- R8 every argument reaches the aggregate, as the number it is
+    ctx.rule("C15.R8", "`sum(a, ...xs, b)` hands every argument to the built-in: the loop that flattens spread arguments of a call never ends early; and inside sum / avg / prod / min / max no element passes through an integer type (a cast saturates at 2^63)", floor=4)
+    hev = core.hir_fn("blots_core::expressions::evaluate_ast")
+    mev = H.main_match(hev["body"], "ast::Expr")
+    call_arm = next((a_ for a_ in (mev["arms"] if mev else []) if any(H.last(v_) == "Call" for v_ in H.pat_variants(a_["pat"]))), None)
+    if call_arm is None:
+        ctx.inst("C15.R8", "Call#all-arguments", None, "no Call arm found in the evaluator", None)
+    else:
+        early = []
+        for lp in H.walk(call_arm["body"]):
+            if H.kind(lp) == "For":
+                early += ["%s at %s" % (H.kind(x), H.loc(x)) for x in H.walk(lp["body"]) if H.kind(x) == "Break"]
+        cut = ["%s at %s" % (x["name"], H.loc(x)) for x in H.walk(call_arm["body"]) if H.kind(x) == "MethodCall" and x["name"] in ("take_while", "take", "skip", "skip_while", "step_by", "map_while") and "Value" in (x.get("ty") or "")]
+        ctx.inst("C15.R8", "Call#all-arguments", not early and not cut, "loops over the call's arguments that can end early: %s" % ((early + cut) or "none"), H.loc(call_arm["body"]))
+    INTS = ("i8", "i16", "i32", "i64", "i128", "isize", "u8", "u16", "u32", "u64", "u128")
+    for name in ("Sum", "Avg", "Prod", "Min", "Max"):
+        a = arms.get(name)
+        if a is None:
+            continue
+        casts = []
+        for x in H.walk(a["body"]):
+            if H.kind(x) == "Cast" and (x.get("ty") or "") in INTS and (H.strip(x["e"]).get("ty") or "").lstrip("&") == "f64":
+                casts.append("as %s at %s" % (x.get("ty"), H.loc(x)))
+        ctx.inst("C15.R8", "%s#no-integer-detour" % name, not casts, "elements cast to an integer type: %s" % (casts or "none"), H.loc(a["body"]))
+
     # ---- R4 both calling conventions are admitted by the arity table
     ctx.rule("C15.R4", "the arity table admits both calling conventions for each of min max avg sum prod median: any number of arguments >= 1 (one list, one number, or several numbers)", floor=6)
     from rules import c01
